@@ -27,7 +27,13 @@ func roundTrip(x *mc.Exec, schema *j.Schema, res j.Resource, doc bool) (got j.Re
 				panic("MarshalDocument error: " + err.Error())
 			}
 		} else {
-			out = j.MarshalResource(res, "", FieldNames(typ), AllRelData(schema))
+			// the selection in an order that is neither sorted nor reversed (declaration order,
+			// URL order: the order of the names is irrelevant)
+			sel := FieldNames(typ)
+			for i := 0; i+2 < len(sel); i += 3 {
+				sel[i], sel[i+2] = sel[i+2], sel[i]
+			}
+			out = j.MarshalResource(res, "", sel, AllRelData(schema))
 		}
 	}); p != "" {
 		return nil, "marshal-panic", p, nil
@@ -180,7 +186,12 @@ func c01Wide(x *mc.Exec) {
 
 // IDs and relationship values, across the four soft/struct schema mixes
 func c01Rel(x *mc.Exec) {
-	id := c01IDs[x.Choose(len(c01IDs), "id")]
+	// (every id of the alphabet goes through C01/single; here four of them meet every linkage)
+	relIDs := c01IDs
+	if !Thorough() {
+		relIDs = []string{c01IDs[0], c01IDs[len(c01IDs)/3], c01IDs[2*len(c01IDs)/3], c01IDs[len(c01IDs)-1]}
+	}
+	id := relIDs[x.Choose(len(relIDs), "id")]
 	soft := x.Choose(2, "impl") == 0
 	softU := x.Choose(2, "impl-other") == 0
 	ones := []string{"", "o", "a b", "<&>", "日本", "\x01\x7f\U000E0001"}
@@ -356,7 +367,7 @@ func c01EditedType(x *mc.Exec) {
 func init() {
 	Register(&Prop{
 		ID: "C01",
-		Rule: "Engine A, all choices Full: (a) 28 kinds x {soft,struct-backed} x every value of the kind's boundary alphabet (min/max of each width, uint64 > 2^63, NUL/multi-byte/HTML strings, zoned sub-second times in years 1..9999, empty/short byte strings, typed nil); (b) a 28-attribute type: 10 diagonals and all 2-way (kind,value) combinations with 5 values per kind (thorough: the whole alphabet of each kind), x 4 soft/struct schema mixes; (c) 10 IDs x 5 to-one x all to-many lists over 4 ids (two needing escapes) up to length 2 (thorough 3) incl. repeats, two to-one relationships, the member-visiting order of UnmarshalResource explored (deviation bound 1) x 4 mixes. (d) a schema built step by step through AddType/AddAttr/AddRel/AddTwoWayRel in every dependency-respecting order with lookups interleaved at every subset of positions. Each case goes through MarshalResource->UnmarshalResource and MarshalDocument->UnmarshalDocument; oracle = field-by-field comparator written in the harness (never the library's Equal). Every case is distinct by construction; all are counted non-trivial (each carries a boundary value or a pair)",
+		Rule: "Engine A, all choices Full: (a) 28 kinds x {soft,struct-backed} x every value of the kind's boundary alphabet (min/max of each width, uint64 > 2^63, NUL/multi-byte/HTML strings, zoned sub-second times in years 1..9999, empty/short byte strings, typed nil); (b) a 28-attribute type: 10 diagonals and all 2-way (kind,value) combinations with 5 values per kind (thorough: the whole alphabet of each kind), x 4 soft/struct schema mixes; (c) 4 IDs (thorough: 10) x 6 to-one x all to-many lists over 4 ids (two needing escapes) up to length 2 (thorough 3) incl. repeats, two to-one relationships, the member-visiting order of UnmarshalResource explored (deviation bound 1) x 4 mixes. (d) a schema built step by step through AddType/AddAttr/AddRel/AddTwoWayRel in every dependency-respecting order with lookups interleaved at every subset of positions. Each case goes through MarshalResource->UnmarshalResource and MarshalDocument->UnmarshalDocument; oracle = field-by-field comparator written in the harness (never the library's Equal). Every case is distinct by construction; all are counted non-trivial (each carries a boundary value or a pair)",
 		Assumptions: []string{"years 1..9999, whole-minute zone offsets, valid UTF-8, no non-nil pointer to a nil byte slice (stated domain)", "to-many compared as sets; nil byte string == empty byte string"},
 		Harnesses: []Harness{
 			{Name: "C01/single", Body: c01Single},
